@@ -166,11 +166,12 @@ func (dist *SkewNormalDistribution) Pdf(r Scalar, x ConstVector) error {
 /* -------------------------------------------------------------------------- */
 
 func (dist SkewNormalDistribution) GetParameters() Vector {
-  p := dist.Xi
+  p := dist.Xi.CloneVector()
   p  = p.AppendVector(dist.Omega.AsVector())
   p  = p.AppendVector(dist.Alpha)
   p  = p.AppendVector(dist.Scale)
-  return p
+  // the result must not share elements with the distribution
+  return p.CloneVector()
 }
 
 func (dist *SkewNormalDistribution) SetParameters(parameters Vector) error {
